@@ -199,6 +199,11 @@ def c07(tier, replay):
     run.cov["expiry_points_enumerated"] = summ["runs"]
     run.cov["scenarios"] = len(summ["scenarios"])
     run.cov["scenarios_with_every_expiry_point"] = sum(1 for s in summ["scenarios"] if s["exhaustive"])
+    # the real binary under the real clock: every info line of a search belongs to a board it handed over before (k-th line,
+    # k-th board), and a search that has been answered prints at most the one line it still owes (instrumented binary:
+    # srch_send / srch_print / io_exit events against Walleye.tla's SrchSend / SrchPrint / PollExit / OrphanLastLine)
+    import checks_uci
+    checks_uci.thread_events(run, "C07", tier)
     model_search(run, tier, 3)
     # iteration 4 with null-move nodes (the aborted null-move sub-search is where a sentinel turns into an ordinary bound)
     model_search(run, tier, 4, True, 120 if q else 1200, "MC_Search_null")
